@@ -52,7 +52,7 @@ struct op_t { char k; long n; long seed; std::string s1, s2; };
 struct sched_t { char k; long n; };
 struct case_t {
 	std::string proto, mode;
-	bool gz=false, zstub=false;
+	bool gz=false, zstub=false, twice=false;
 	std::vector<op_t> script;
 	std::vector<sched_t> sched;
 };
@@ -69,6 +69,7 @@ static bool g_cache_have=false;
 static std::atomic<bool> g_sched_on(false);
 static size_t g_sched_pos=0;
 static long st_calls=0, st_short=0, st_wb=0, st_natural=0, st_wb_blocking=0;
+static long tot_twice=0;
 static long tot_calls=0, tot_short=0, tot_wb=0, tot_natural=0, tot_cases_with_short=0, tot_cases_with_wb=0;
 
 typedef ssize_t (*writev_t)(int,const struct iovec *,int);
@@ -465,6 +466,8 @@ static bool parse_case(std::vector<std::string> const &w,case_t &c,std::string &
 {
 	if(w.size()!=5) { err="bad-op"; return false; }
 	c=case_t(); c.proto=w[0]; c.mode=w[1];
+	// "...2": the same request is sent a second time on the same (keep-alive) connection
+	if(c.proto=="http11ka2"||c.proto=="http10ka2"||c.proto=="fcgi2") { c.twice=true; c.proto.erase(c.proto.size()-1); }
 	if(c.proto!="scgi"&&c.proto!="fcgi"&&c.proto!="http10"&&c.proto!="http11"&&c.proto!="http10ka"&&c.proto!="http11ka") { err="bad-op"; return false; }
 	if(c.mode!="normal"&&c.mode!="nogzip"&&c.mode!="raw"&&c.mode!="async"&&c.mode!="asyncraw") { err="bad-op"; return false; }
 	auto split=[](std::string const &s){ std::vector<std::string> r; if(s=="-") return r; size_t p=0; for(;;){ size_t e=s.find(',',p); r.push_back(s.substr(p,e==std::string::npos?e:e-p)); if(e==std::string::npos) break; p=e+1;} return r; };
@@ -522,7 +525,7 @@ static std::string run_case(std::vector<std::string> const &w)
 		env.push_back({"SCRIPT_NAME",""}); env.push_back({"PATH_INFO",path}); env.push_back({"QUERY_STRING",""}); env.push_back({"SERVER_PROTOCOL","HTTP/1.0"});
 		if(c.gz) env.push_back({"HTTP_ACCEPT_ENCODING","gzip"});
 		std::string b; for(auto const &kv: env) { fcgi_len(b,kv.first.size()); fcgi_len(b,kv.second.size()); b+=kv.first; b+=kv.second; }
-		std::string begin; begin.push_back(0); begin.push_back(1); begin.push_back(0); begin.append(5,'\0');   // responder, no keep-conn
+		std::string begin; begin.push_back(0); begin.push_back(1); begin.push_back(c.twice?1:0); begin.append(5,'\0');   // responder; FCGI_KEEP_CONN when the connection is reused
 		req=fcgi_rec(1,begin)+fcgi_rec(4,b)+fcgi_rec(4,"")+fcgi_rec(5,"");
 	}
 	else {
@@ -540,8 +543,9 @@ static std::string run_case(std::vector<std::string> const &w)
 	bool is_http = c.proto.compare(0,4,"http")==0;
 	if(!send_all(fd,req)) { g_sched_on.store(false); ::close(fd); return "send-failed"; }
 	// no further request will follow: a keep-alive server then closes after the response instead of waiting
-	if(is_http) { ::shutdown(fd,SHUT_WR); shut=true; }
+	if(is_http && !c.twice) { ::shutdown(fd,SHUT_WR); shut=true; }
 	char buf[65536];
+	std::string first; bool second_sent=false; std::string twice_note;
 	for(;;) {
 		struct pollfd p; p.fd=fd; p.events=POLLIN; p.revents=0;
 		int r=::poll(&p,1,20000);
@@ -551,11 +555,31 @@ static std::string run_case(std::vector<std::string> const &w)
 		if(n<0) { if(errno==EINTR) continue; break; }
 		if(n==0) break;
 		wire.append(buf,n);
-		if(is_http && !shut) {
-			// keep-alive: the server waits for the next request; tell it there is none once the response is complete
-			deframe_http(wire,false,d);
-			if(d.complete) { ::shutdown(fd,SHUT_WR); shut=true; }
+		bool complete=false;
+		if(is_http && !shut) { deframe_http(wire,false,d); complete=d.complete; }
+		else if(c.proto=="fcgi" && c.twice) { deframed t; std::string rr; deframe_fcgi(wire,t,rr); complete = t.verdict=="ok"; }
+		if(complete && c.twice && !second_sent) {
+			// first response complete on a connection the server keeps open: wait for the application, then ask again
+			{
+				std::unique_lock<std::mutex> lk(g_mx);
+				g_cv.wait_for(lk,std::chrono::seconds(20),[]{return g_app_done;});
+				if(g_app_note!="-") twice_note="first:"+g_app_note;
+				g_app_done=false; g_app_note="-";
+				z_trace.clear(); z_input.clear(); z_pending.clear(); z_cont=false; z_finish=z_sync=0;
+			}
+			first.swap(wire); wire.clear();
+			if(!send_all(fd,req)) { twice_note="second-send-failed"; break; }
+			second_sent=true;
+			if(is_http) { ::shutdown(fd,SHUT_WR); shut=true; }
+			continue;
 		}
+		if(complete && is_http && !shut) { ::shutdown(fd,SHUT_WR); shut=true; }
+		if(complete && c.proto=="fcgi" && c.twice && second_sent) break;   // keep-conn: the server does not close
+	}
+	if(c.twice) {
+		if(!second_sent) twice_note = twice_note.empty() ? "closed-after-first" : twice_note;
+		else if(first!=wire) twice_note="second-response-differs";
+		else if(twice_note.empty()) twice_note="twice-identical";
 	}
 	::close(fd);
 	{
@@ -582,9 +606,11 @@ static std::string run_case(std::vector<std::string> const &w)
 	std::string verdict=d.verdict.empty()?"none":d.verdict;
 	if(timeout) verdict+="+timeout";
 	if(!done) note+=";app-not-done";
+	if(!twice_note.empty() && twice_note!="twice-identical" && twice_note!="closed-after-first") note = (note=="-") ? twice_note : note+";"+twice_note;
+	if(twice_note=="twice-identical") tot_twice++;
 	std::ostringstream r;
 	r<<vh::hex(wire)<<' '<<cache<<' '<<verdict<<' '<<vh::hex(d.hdr)<<' '<<vh::hex(d.body)<<' '<<note<<' '<<ztr<<' '<<(zin.empty()?"-":vh::hex(zin))<<' '<<gun
-	 <<" sched="<<ss<<'/'<<sw<<'/'<<sn<<'/'<<sc<<'/'<<sb;
+	 <<" sched="<<ss<<'/'<<sw<<'/'<<sn<<'/'<<sc<<'/'<<sb<<" tw="<<(twice_note.empty()?"-":twice_note);
 	return r.str();
 }
 
@@ -667,6 +693,6 @@ int main(int argc,char **argv)
 	::unlink(g_scgi_path.c_str()); ::unlink(g_fcgi_path.c_str());
 	std::ofstream st("c03_stats.json");
 	st<<"{\"writev_calls\":"<<tot_calls<<",\"short_writes_injected\":"<<tot_short<<",\"would_blocks_injected\":"<<tot_wb
-	  <<",\"natural_short_writes\":"<<tot_natural<<",\"cases_with_short_write\":"<<tot_cases_with_short<<",\"cases_with_would_block\":"<<tot_cases_with_wb<<"}\n";
+	  <<",\"natural_short_writes\":"<<tot_natural<<",\"cases_with_short_write\":"<<tot_cases_with_short<<",\"cases_with_would_block\":"<<tot_cases_with_wb<<",\"keepalive_second_response_identical\":"<<tot_twice<<"}\n";
 	return rc;
 }
